@@ -111,7 +111,7 @@ var snapSelect = map[string][]string{
 	"C10": {fReAst + "#*", fReAstP + "#*"},
 	"C11": {fAstP + "#*", fParser + "#Parser.ParseAndEvaluate"},
 	"C12": cat(cases(fSpecP, "Parse", rng(12, 18)...), []string{fSpecP + "#Parse/frame", fSymtab + "#SymbolTable.Precedences", fSymtab + "#SymbolTable.AddPrecedence"}),
-	"C13": {fLexer + "#New", fLexer + "#Lexer.NextToken", fLexer + "#Lexer.evalToken", fLexer + "#Lexer.evalDFA", fParser + "#New", fParser + "#Parser.nextToken"},
+	"C13": {fLexer + "#New", fLexer + "#Lexer.NextToken", fLexer + "#Lexer.scanToken", fLexer + "#Lexer.evalToken", fLexer + "#Lexer.evalDFA", fParser + "#New", fParser + "#Parser.nextToken"},
 	"C14": {fMain + "#*", fCommand + "#Command.Run", fCommand + "#New", fSpecP + "#Parse/frame", fAstP + "#Parse/frame", fNfaP + "#Parse", fReAst + "#Parse", fReIn + "#*"},
 	"C15": {fSpec + "#Spec.DFA", fSymtab + "#SymbolTable.ensureSingleDefs", fSymtab + "#SymbolTable.ensureDistinctDefs", fSymtab + "#SymbolTable.orderedTerminals",
 		fSymtab + "#SymbolTable.Definitions", fSpec + "#Spec.resolveConflicts", fSpec + "#Spec.dominantAction", fGolang + "#generator.generateLexer", fGolang + "#groupDFAStates",
@@ -122,7 +122,7 @@ var snapSelect = map[string][]string{
 	"C18": {fParser + "#*"},
 	"C19": {tDir + "lexer.go.tmpl", tDir + "input.go.tmpl", tDir + "types.go.tmpl", tDir + "errors.go.tmpl", fGolang + "#generator.generateLexer", fGolang + "#groupDFAStates",
 		fGolang + "#formatInts", fGolang + "#formatRunes"},
-	"C20": {fParser + "#New", fParser + "#Parser.nextToken", fParser + "#Parser.Parse", fLexer + "#New", fLexer + "#Lexer.NextToken", fLexer + "#Lexer.evalToken", fLexer + "#Lexer.evalDFA"},
+	"C20": {fParser + "#New", fParser + "#Parser.nextToken", fParser + "#Parser.Parse", fLexer + "#New", fLexer + "#Lexer.NextToken", fLexer + "#Lexer.scanToken", fLexer + "#Lexer.evalToken", fLexer + "#Lexer.evalDFA"},
 }
 
 func norm(s string) string { return strings.Join(strings.Fields(s), " ") }
